@@ -296,7 +296,6 @@ func sameCollection(a, m ssa.Value, call *ssa.Call) bool {
 }
 
 func helperValidatesKeys(p *core.Prog, h *ssa.Function, par *ssa.Parameter) bool {
-	pt := passThrough(p)
 	isKey := func(v ssa.Value) bool {
 		ex, ok := core.StripConv(v).(*ssa.Extract)
 		if !ok || ex.Index != 1 {
@@ -314,16 +313,8 @@ func helperValidatesKeys(p *core.Prog, h *ssa.Function, par *ssa.Parameter) bool
 		if taken[1] != taken[2] || taken[0] == taken[1] {
 			continue
 		}
-		ib := ifi.Block()
-		all := true
-		rets := core.ReturnsFrom(ib.Succs[taken[1]], ib)
-		for _, ret := range rets {
-			if core.SuccessCapable(ret, pt) {
-				all = false
-			}
-		}
 		// the bad edge must not simply continue the loop: it has to leave through an error return
-		if all && len(rets) > 0 && !reachesBlock(ib.Succs[taken[1]], ib) {
+		if edgeOnlyFails(p, ifi.Block(), taken[1]) {
 			return true
 		}
 	}
